@@ -99,7 +99,19 @@ fn f_limbs(f: Float) -> Vec<i64> {
     let b = f.to_bits();
     vec![(b >> 16) as i64, (b & 0xffff) as i64]
 }
+thread_local! {
+    /// Output floats are logged as round(value * scale) when that is within
+    /// 1e-3 of an integer (RTL-SDR decode: scale 125).
+    pub static NUM_SCALE: std::cell::Cell<Float> = const { std::cell::Cell::new(1.0) };
+    /// Data of the last source block built (sources have no input ports).
+    pub static SRC_DATA: std::cell::RefCell<Vec<i64>> = const { std::cell::RefCell::new(Vec::new()) };
+}
 fn f_num(f: Float) -> Option<i64> {
+    let s = NUM_SCALE.with(|c| c.get());
+    if s != 1.0 {
+        let x = f * s;
+        return if x.is_finite() && (x - x.round()).abs() < 1e-3 && x.abs() < 16_000_000.0 { Some(x.round() as i64) } else { None };
+    }
     if f.is_finite() && f.fract() == 0.0 && f.abs() < 16_000_000.0 { Some(f as i64) } else { None }
 }
 fn gen_float(kind: &str, i: usize, rng: &mut Rng) -> Float {
@@ -559,8 +571,10 @@ pub fn do_work(rig: &mut Rig, log: &mut Vec<Value>) -> Value {
         newn.push(n.iter().map(|x| json!(x.unwrap_or(NONUM))).collect::<Vec<_>>());
         newt.push(t);
     }
+    let block = &mut rig.block;
+    let eof = catch(|| block.eof()).unwrap_or(false);
     let ev = json!({"ev": "work", "avail": ab, "space": sb, "consumed": consumed, "produced": produced,
-        "verdict": v, "rc_same": rcb == rca, "out": newv, "outn": newn, "tags": newt});
+        "verdict": v, "rc_same": rcb == rca, "out": newv, "outn": newn, "tags": newt, "eof": eof});
     log.push(ev.clone());
     ev
 }
@@ -678,6 +692,8 @@ pub fn run_scenario(spec: &Value) -> Vec<Value> {
     let mut data_rng = Rng::new(spec["data_seed"].as_u64().unwrap_or(seed));
     POPS.with(|p| p.borrow_mut().clear());
     USED.with(|u| u.borrow_mut().clear());
+    SRC_DATA.with(|d| d.borrow_mut().clear());
+    NUM_SCALE.with(|c| c.set(1.0));
     rustradio::verif::trace_start();
     let mut log = Vec::new();
     let made = catch(|| crate::blocks::make(spec, &mut data_rng));
@@ -695,17 +711,22 @@ pub fn run_scenario(spec: &Value) -> Vec<Value> {
         }
     };
     let with_inputs = spec["log_inputs"].as_bool().unwrap_or(false);
+    // inputs are logged unscaled; the scale applies to outputs only
+    let inputs_json = json!(rig.ins.iter().map(|p| p.nums().iter().map(|x| json!(x.unwrap_or(NONUM))).collect::<Vec<_>>()).collect::<Vec<_>>());
+    NUM_SCALE.with(|c| c.set(spec["out_scale"].as_f64().unwrap_or(1.0) as Float));
     log.push(json!({"ev": "scenario", "block": spec["block"], "params": spec["params"], "mode": spec["mode"],
         "nin": rig.ins.len(), "nout": rig.outs.len(),
         "totals": rig.ins.iter().map(|p| p.total()).collect::<Vec<_>>(),
         "pkt_in": rig.ins.iter().map(|p| p.is_packet()).collect::<Vec<_>>(),
         "pkt_out": rig.outs.iter().map(|p| p.is_packet()).collect::<Vec<_>>(),
         "caps": rig.ins.iter().map(|p| p.space()).chain(rig.outs.iter().map(|p| p.space())).collect::<Vec<_>>(),
-        "inputs": if with_inputs { json!(rig.ins.iter().map(|p| p.nums().iter().map(|x| json!(x.unwrap_or(NONUM))).collect::<Vec<_>>()).collect::<Vec<_>>()) } else { json!([]) },
+        "inputs": if with_inputs { inputs_json } else { json!([]) },
+        "srcdata": SRC_DATA.with(|d| json!(*d.borrow())),
         "intags": rig.ins.iter().map(|p| p.tags()).collect::<Vec<_>>(),
         "seed": seed, "id": spec["id"],
         "sync": spec["sync"].as_bool().unwrap_or(false), "close": spec["close"].as_bool().unwrap_or(false),
         "allow_err": spec["allow_err"].as_bool().unwrap_or(false),
+        "fn": if spec["fn"].is_object() { spec["fn"].clone() } else { json!({"kind": "none"}) },
         "tagmap": if spec["tagmap"].is_object() { spec["tagmap"].clone() } else { json!({"kind": "none", "arg": 0}) }}));
     let mode = spec["mode"].as_str().unwrap_or("ref");
     let mut rng = Rng::new(seed ^ 0x5bd1e995);
